@@ -467,3 +467,195 @@ pub fn generate_into(ctx: &mut Ctx, mutate: &dyn Fn(&mut Rng, &[u8], &[Vec<u8>])
         }
     }
 }
+
+//============ cmsd: SignedObject::decode (strict) against Model/CmsDer.lean =====================
+
+use rpki::repository::aspa::Aspa;
+use rpki::repository::manifest::Manifest;
+use rpki::repository::roa::Roa;
+use rpki::repository::sigobj::SignedObject;
+
+/// `cmsd <ty> <hex>` => `<typed decode ok|err> <SignedObject fields | err>`
+pub fn exec_cms(toks: &[&str]) -> String {
+    if toks.len() != 3 { return "bad-op".into() }
+    let Some(data) = unhex(toks[2]) else { return "bad-op".into() };
+    let b = Bytes::from(data);
+    let typed = match toks[1] {
+        "so" => SignedObject::decode(b.clone(), true).is_ok(),
+        "roa" => Roa::decode(b.clone(), true).is_ok(),
+        "aspa" => Aspa::decode(b.clone(), true).is_ok(),
+        "mft" => Manifest::decode(b.clone(), true).is_ok(),
+        _ => return "bad-op".into(),
+    };
+    let so = match SignedObject::decode(b, true) {
+        Ok(o) => format!("ok {} {} {} | {}", hex(o.content_type().as_ref()), hex(&o.content().to_bytes()),
+                         o.signing_time().timestamp(), show_cert(o.cert())),
+        Err(_) => "err".into(),
+    };
+    format!("{} {}", if typed { "ok" } else { "err" }, so)
+}
+
+/// SignedData children of a CMS tree: [version, digestAlgorithms, encapContentInfo, [0] certificates, signerInfos]
+fn sd_kids(nodes: &mut Vec<Node>) -> Option<&mut Vec<Node>> {
+    let ci = nodes.get_mut(0)?.kids.as_mut()?;
+    let c0 = ci.get_mut(1)?.kids.as_mut()?;
+    c0.get_mut(0)?.kids.as_mut()
+}
+
+/// SignerInfo children: [version, sid, digestAlgorithm, [0] signedAttrs, signatureAlgorithm, signature]
+fn si_kids(nodes: &mut Vec<Node>) -> Option<&mut Vec<Node>> {
+    let sd = sd_kids(nodes)?;
+    let sis = sd.last_mut()?.kids.as_mut()?;
+    sis.get_mut(0)?.kids.as_mut()
+}
+
+fn one(bytes: &[u8]) -> Option<Node> { let r = raw(bytes); if r.len() == 1 { r.into_iter().next() } else { None } }
+
+pub fn structured_cms(orig: &[u8]) -> Vec<Vec<u8>> {
+    let mut out: Vec<Vec<u8>> = Vec::new();
+    let Some(base) = der::parse_nodes(orig) else { return out };
+    { let mut t = base.clone(); if sd_kids(&mut t).map(|k| k.len()).unwrap_or(0) < 5 { return out } }
+    let attr = |o: &[u64], v: Vec<u8>| pki::attr(o, v);
+    // --- SignedData level
+    let sd_repl: Vec<(usize, Vec<u8>)> = vec![
+        (0, der::uint_u64(1)), (0, der::uint_u64(4)), (0, der::tlv(0x02, &[0, 3])), (0, der::tlv(0x02, &[])),
+        (1, der::set_raw(&[])), (1, der::set_raw(&[der::seq(&[der::oid(pki::SHA256)]), der::seq(&[der::oid(pki::SHA256)])])),
+        (1, der::set_raw(&[der::seq(&[der::oid(pki::SHA256), der::null()])])),
+        (1, der::set_raw(&[der::seq(&[der::oid(pki::SHA256), der::null(), der::null()])])),
+        (1, der::set_raw(&[der::seq(&[der::oid(&[1, 3, 14, 3, 2, 26])])])),
+        (1, der::seq(&[der::seq(&[der::oid(pki::SHA256)])])),
+        (2, der::seq(&[der::oid(pki::CT_ROA)])),
+        (2, der::seq(&[der::oid(pki::CT_ROA), der::ctx(0, true, &[])])),
+        (2, der::seq(&[der::oid(pki::CT_GBR), der::ctx(0, true, &der::octets(b"x"))])),
+        (2, der::seq(&[der::oid(pki::CT_GBR), der::ctx(0, true, &der::cat(&[der::octets(b"x"), der::octets(b"y")]))])),
+        (2, der::seq(&[der::oid(pki::CT_GBR), der::ctx(0, true, &der::tlv(0x24, &der::octets(b"x")))])),
+        (2, der::seq(&[der::oid(pki::CT_GBR), der::ctx(0, false, b"x")])),
+        (2, der::seq(&[der::oid(pki::CT_GBR), der::ctx(0, true, &der::octets(b"x")), der::null()])),
+        (2, der::seq(&[der::tlv(0x06, &[0x2a, 0x86]), der::ctx(0, true, &der::octets(b"x"))])),
+        (3, der::ctx(0, true, &[])), (3, der::ctx(1, true, &der::seq(&[]))), (3, der::ctx(0, false, &[1, 2, 3])),
+        (4, der::set_raw(&[])), (4, der::seq(&[])),
+    ];
+    for (i, v) in &sd_repl {
+        let mut t = base.clone();
+        if let (Some(k), Some(n)) = (sd_kids(&mut t), one(v)) { if k.len() > *i { k[*i] = n; out.push(der::encode_nodes(&t)); } }
+    }
+    // two certificates, a CRL set after the certificates, two signer infos, an element after the signer infos
+    { let mut t = base.clone(); if let Some(k) = sd_kids(&mut t) { if let Some(c) = k[3].kids.as_mut() { if let Some(f) = c.first().cloned() { c.push(f); out.push(der::encode_nodes(&t)); } } } }
+    { let mut t = base.clone(); if let Some(k) = sd_kids(&mut t) { k.insert(4, cons(0xa1, vec![])); out.push(der::encode_nodes(&t)); } }
+    { let mut t = base.clone(); if let Some(k) = sd_kids(&mut t) { if let Some(s) = k.last_mut().and_then(|x| x.kids.as_mut()) { if let Some(f) = s.first().cloned() { s.push(f); out.push(der::encode_nodes(&t)); } } } }
+    { let mut t = base.clone(); if let Some(k) = sd_kids(&mut t) { k.push(prim(0x05, &[])); out.push(der::encode_nodes(&t)); } }
+    { let mut t = base.clone(); if let Some(k) = sd_kids(&mut t) { k.remove(3); out.push(der::encode_nodes(&t)); } }
+    // --- SignerInfo level
+    let si_repl: Vec<(usize, Vec<u8>)> = vec![
+        (0, der::uint_u64(1)), (0, der::tlv(0x02, &[0, 3])),
+        (1, der::ctx(0, false, &[7u8; 19])), (1, der::ctx(0, false, &[7u8; 21])), (1, der::ctx(0, true, &der::octets(&[7u8; 20]))),
+        (1, der::seq(&[pki::name("x"), der::uint_u64(1)])), (1, der::octets(&[7u8; 20])),
+        (2, der::seq(&[der::oid(pki::SHA256), der::null()])), (2, der::seq(&[der::oid(&[1, 3, 14, 3, 2, 26])])), (2, der::seq(&[])),
+        (4, der::seq(&[der::oid(pki::RSA)])), (4, der::seq(&[der::oid(pki::SHA256_RSA), der::null()])), (4, der::seq(&[der::oid(pki::SHA256_RSA)])),
+        (4, der::seq(&[der::oid(pki::SHA256)])), (4, der::seq(&[der::oid(pki::RSA), der::null(), der::null()])),
+        (4, der::seq(&[der::oid(pki::RSA), der::tlv(0x05, &[0])])),
+        (5, der::octets(&[])), (5, der::tlv(0x24, &der::octets(&[1, 2]))), (5, der::bits(0, &[1, 2])),
+    ];
+    for (i, v) in &si_repl {
+        let mut t = base.clone();
+        if let (Some(k), Some(n)) = (si_kids(&mut t), one(v)) { if k.len() > *i { k[*i] = n; out.push(der::encode_nodes(&t)); } }
+    }
+    { let mut t = base.clone(); if let Some(k) = si_kids(&mut t) { k.push(cons(0xa1, vec![])); out.push(der::encode_nodes(&t)); } }
+    { let mut t = base.clone(); if let Some(k) = si_kids(&mut t) { if k.len() > 3 { k.remove(3); out.push(der::encode_nodes(&t)); } } }
+    // --- signed attributes: every subset, order, duplicate, foreign attributes, values of the wrong shape
+    let ct_oid: Vec<u64> = {
+        // eContentType of the object
+        let mut t = base.clone();
+        let c = sd_kids(&mut t).and_then(|k| k[2].kids.as_ref().and_then(|e| e.first().map(|o| o.content.clone()))).unwrap_or_default();
+        // back to arcs is not needed: attributes are assembled from raw octets below
+        let _ = c; vec![]
+    };
+    let _ = ct_oid;
+    let (cur_attrs, ct_raw): (Vec<Node>, Vec<u8>) = {
+        let mut t = base.clone();
+        let ct = sd_kids(&mut t).and_then(|k| k[2].kids.as_ref().and_then(|e| e.first().map(|o| der::tlv(0x06, &o.content)))).unwrap_or_default();
+        (si_kids(&mut t).and_then(|k| k.get(3).and_then(|a| a.kids.clone())).unwrap_or_default(), ct)
+    };
+    let find = |o: &[u64]| -> Option<Node> {
+        let want = der::oid(o);
+        cur_attrs.iter().find(|a| a.kids.as_ref().and_then(|k| k.first()).map(|x| der::tlv(0x06, &x.content) == want).unwrap_or(false)).cloned()
+    };
+    let (a_ct, a_md, a_st) = (find(pki::AT_CONTENT_TYPE), find(pki::AT_MESSAGE_DIGEST), find(pki::AT_SIGNING_TIME));
+    if let (Some(a_ct), Some(a_md), Some(a_st)) = (a_ct, a_md, a_st) {
+        let n = |b: Vec<u8>| one(&b).unwrap();
+        let bst = n(attr(pki::AT_BINARY_SIGNING_TIME, der::uint_u64(1_700_000_000)));
+        let unk = n(attr(&[1, 2, 3, 4], der::null()));
+        let sets: Vec<Vec<Node>> = vec![
+            vec![a_md.clone(), a_st.clone(), a_ct.clone()], vec![a_st.clone(), a_ct.clone(), a_md.clone()],
+            vec![a_ct.clone(), a_md.clone()], vec![a_ct.clone(), a_st.clone()], vec![a_md.clone(), a_st.clone()], vec![],
+            vec![a_ct.clone(), a_ct.clone(), a_md.clone(), a_st.clone()], vec![a_ct.clone(), a_md.clone(), a_md.clone(), a_st.clone()],
+            vec![a_ct.clone(), a_md.clone(), a_st.clone(), a_st.clone()],
+            vec![a_ct.clone(), a_md.clone(), a_st.clone(), bst.clone()], vec![a_ct.clone(), a_md.clone(), a_st.clone(), unk.clone()],
+            vec![unk.clone(), a_ct.clone(), a_md.clone(), a_st.clone()],
+            vec![n(attr(pki::AT_CONTENT_TYPE, der::oid(pki::CT_GBR))), a_md.clone(), a_st.clone()],
+            vec![n(attr(pki::AT_CONTENT_TYPE, der::oid(pki::CT_ROA))), a_md.clone(), a_st.clone()],
+            vec![n(der::seq(&[der::oid(pki::AT_CONTENT_TYPE), der::set_raw(&[ct_raw.clone(), ct_raw.clone()])])), a_md.clone(), a_st.clone()],
+            vec![n(der::seq(&[der::oid(pki::AT_CONTENT_TYPE), der::set_raw(&[])])), a_md.clone(), a_st.clone()],
+            vec![n(der::seq(&[der::oid(pki::AT_CONTENT_TYPE), der::seq(&[ct_raw.clone()])])), a_md.clone(), a_st.clone()],
+            vec![n(der::seq(&[der::oid(pki::AT_CONTENT_TYPE), der::set_raw(&[ct_raw.clone()]), der::null()])), a_md.clone(), a_st.clone()],
+            vec![a_ct.clone(), n(attr(pki::AT_MESSAGE_DIGEST, der::octets(&[]))), a_st.clone()],
+            vec![a_ct.clone(), n(attr(pki::AT_MESSAGE_DIGEST, der::octets(&[0u8; 31]))), a_st.clone()],
+            vec![a_ct.clone(), n(attr(pki::AT_MESSAGE_DIGEST, der::tlv(0x24, &der::octets(&[0u8; 32])))), a_st.clone()],
+            vec![a_ct.clone(), a_md.clone(), n(attr(pki::AT_SIGNING_TIME, der::gen_time(2024, 2, 29, 1, 2, 3)))],
+            vec![a_ct.clone(), a_md.clone(), n(attr(pki::AT_SIGNING_TIME, der::utc_time(1950, 1, 1, 0, 0, 0)))],
+            vec![a_ct.clone(), a_md.clone(), n(attr(pki::AT_SIGNING_TIME, der::gen_time(2023, 2, 29, 1, 2, 3)))],
+            vec![a_ct.clone(), a_md.clone(), n(attr(pki::AT_SIGNING_TIME, der::uint_u64(5)))],
+        ];
+        for set in sets {
+            let mut t = base.clone();
+            if let Some(k) = si_kids(&mut t) { if k.len() > 3 { k[3].kids = Some(set); out.push(der::encode_nodes(&t)); } }
+        }
+        // the attribute set as a primitive, as a SET
+        for tag in [0x80u8, 0x31, 0xa1] {
+            let mut t = base.clone();
+            if let Some(k) = si_kids(&mut t) { if k.len() > 3 { k[3].tag = tag; out.push(der::encode_nodes(&t)); } }
+        }
+    }
+    // --- ContentInfo
+    { let mut t = base.clone(); if let Some(ci) = t.get_mut(0).and_then(|c| c.kids.as_mut()) { ci[0] = oid_node(&[1, 2, 840, 113549, 1, 7, 1]); out.push(der::encode_nodes(&t)); } }
+    { let mut t = base.clone(); if let Some(ci) = t.get_mut(0).and_then(|c| c.kids.as_mut()) { ci.push(prim(0x05, &[])); out.push(der::encode_nodes(&t)); } }
+    { let mut t = base.clone(); if let Some(ci) = t.get_mut(0).and_then(|c| c.kids.as_mut()) { if let Some(c0) = ci[1].kids.as_mut() { c0.push(prim(0x05, &[])); out.push(der::encode_nodes(&t)); } } }
+    { let mut d = orig.to_vec(); d.extend_from_slice(&[0x05, 0x00]); out.push(d); }
+    { let mut d = orig.to_vec(); d.push(0xff); out.push(d); }
+    // the embedded certificate in the hand-made variations of `structured` (a few of them)
+    {
+        let mut t = base.clone();
+        if let Some(k) = sd_kids(&mut t) {
+            if let Some(cert) = k[3].kids.as_ref().and_then(|c| c.first()) {
+                let cert_der = der::encode_nodes(std::slice::from_ref(cert));
+                for (i, v) in structured(&cert_der).into_iter().enumerate() {
+                    if i % 9 != 0 { continue }
+                    let mut t2 = base.clone();
+                    if let (Some(k2), Some(nn)) = (sd_kids(&mut t2), one(&v)) { k2[3].kids = Some(vec![nn]); out.push(der::encode_nodes(&t2)); }
+                }
+            }
+        }
+    }
+    out
+}
+
+pub fn generate_cms_into(ctx: &mut Ctx, seeds: &[(&'static str, Vec<u8>)], mutate: &dyn Fn(&mut Rng, &[u8], &[Vec<u8>]) -> Vec<u8>,
+                         systematic: &dyn Fn(&[u8]) -> Vec<Vec<u8>>) {
+    let mut rng = Rng::new(ctx.seed ^ 0xC355D);
+    let all: Vec<Vec<u8>> = seeds.iter().map(|s| s.1.clone()).collect();
+    let per = if ctx.id == "C02" { if ctx.tier_thorough { 300 } else { 30 } } else if ctx.tier_thorough { 1500 } else { 150 };
+    for (entry, data) in seeds {
+        let ty = match *entry { "roa" => "roa", "aspa" => "aspa", "mft" => "mft", "so" => "so", _ => continue };
+        if data.len() > 6000 { continue }
+        ctx.case(&format!("cmsd {} {}", ty, hex(data)));
+        for other in ["so", "roa", "aspa", "mft"] { if other != ty { ctx.case(&format!("cmsd {} {}", other, hex(data))); } }
+        for d in structured_cms(data) { ctx.case(&format!("cmsd {} {}", ty, hex(&d))); }
+        if ctx.id != "C02" { for d in systematic(data) { ctx.case(&format!("cmsd {} {}", ty, hex(&d))); } }
+        for _ in 0..per {
+            let mut d = mutate(&mut rng, data, &all);
+            if rng.chance(1, 5) { d = mutate(&mut rng, &d, &all); }
+            if d.len() > 20_000 { d.truncate(20_000); }
+            ctx.case(&format!("cmsd {} {}", ty, hex(&d)));
+        }
+    }
+}
